@@ -53,6 +53,7 @@ type sweepCfg struct {
 	deflate   int    // -1 nil, else threshold (perMessageDeflate)
 	wsDeflate bool   // client offers permessage-deflate
 	accept    string // Accept-Encoding of the polls ("" = absent)
+	accept2   string // if set: Accept-Encoding from the second poll on ("-" = header absent)
 	pollFirst bool   // a poll is pending before the first Send
 	j         string // JSONP index parameter
 	sends     []sendSpec
@@ -63,7 +64,11 @@ func (c sweepCfg) id() string {
 	for _, s := range c.sends {
 		ss = append(ss, s.String())
 	}
-	return fmt.Sprintf("%s comp=%d deflate=%d/%v AE=%q pollFirst=%v j=%q sends=[%s]", c.car, c.httpComp, c.deflate, c.wsDeflate, c.accept, c.pollFirst, c.j, strings.Join(ss, " "))
+	ae := c.accept
+	if c.accept2 != "" {
+		ae += " then " + c.accept2
+	}
+	return fmt.Sprintf("%s comp=%d deflate=%d/%v AE=%q pollFirst=%v j=%q sends=[%s]", c.car, c.httpComp, c.deflate, c.wsDeflate, ae, c.pollFirst, c.j, strings.Join(ss, " "))
 }
 
 // acceptNames: the codings an Accept-Encoding value names (token match, q=0 excluded).
@@ -249,6 +254,13 @@ func sweepBody(cfg sweepCfg, prop string) vsched.Body {
 				if countMsgs(polls, pc) >= len(sent) {
 					break
 				}
+				if cfg.accept2 != "" && len(polls) >= 2 {
+					if cfg.accept2 == "-" {
+						pc.Hdr = nil
+					} else {
+						pc.Hdr = map[string]string{"Accept-Encoding": cfg.accept2}
+					}
+				}
 				polls = append(polls, pc.Get())
 				x.Settle()
 			}
@@ -418,13 +430,14 @@ func sweepBody(cfg sweepCfg, prop string) vsched.Body {
 			// compression policy
 			if enc != "" {
 				compressed++
-				named := acceptNames(cfg.accept)
+				reqAE := r.Req.Header.Get("Accept-Encoding")
+				named := acceptNames(reqAE)
 				requested := batch != nil && (ri == 0 || requestedBy[fi-1])
 				switch {
 				case cfg.httpComp < 0:
 					fail("compressed-when-disabled[%s %s]: Content-Encoding %q with HTTP compression disabled (%s)", car.kind, enc, enc, what)
 				case !named[enc]:
-					fail("compressed-unnamed-coding[%s %s AE=%q]: Content-Encoding %q is not a coding the request's Accept-Encoding %q names (%s)", car.kind, enc, cfg.accept, enc, cfg.accept, what)
+					fail("compressed-unnamed-coding[%s %s AE=%q]: Content-Encoding %q is not a coding the request's Accept-Encoding %q names (%s)", car.kind, enc, reqAE, enc, reqAE, what)
 				case len(body) < cfg.httpComp:
 					fail("compressed-below-threshold[%s %s]: %d-byte body compressed, threshold %d (%s)", car.kind, enc, len(body), cfg.httpComp, what)
 				case batch != nil && !requested:
@@ -590,6 +603,14 @@ func init() {
 					}
 				}
 			}
+			// the Accept-Encoding of a session's polls may change from one poll to the next
+			for _, car := range cars {
+				for _, pair := range [][2]string{{"gzip", "br"}, {"gzip", "-"}, {"gzip", "gzip;q=0, deflate"}, {"br", "identity"}, {"deflate", "zstd"}} {
+					cfg := sweepCfg{car: car, httpComp: 1024, deflate: -1, accept: pair[0], accept2: pair[1], pollFirst: true, sends: []sendSpec{{4, "nil"}, {4, "nil"}, {4, "nil"}}, j: "3"}
+					n++
+					c.Once(cfg.id(), sweepBody(cfg, prop))
+				}
+			}
 			c.Res.Distinct = int64(n)
 			c.Note("polling/jsonp x revisions x httpCompression {unset, threshold 0, 1024, 2005} x Accept-Encoding %v x batches around the threshold with/without a packet requesting compression", accepts)
 		})
@@ -619,6 +640,26 @@ func init() {
 		}
 		c.Res.Distinct = int64(n)
 		c.Note("websocket x revisions x b64 x perMessageDeflate {unset, threshold 0, 1024} x client offering permessage-deflate or not x batches mixing normal and pre-encoded packets")
+	})
+	// frame-length boundaries on the frame transports (C01): payloads whose frame lands on each side of
+	// the 7-bit / 16-bit / 64-bit length classes
+	register("C01", "frame-boundaries", false, func(c *Ctx) {
+		base := len(sweepPayloads)
+		for _, n := range []int{123, 124, 125, 126, 127, 65533, 65534, 65535, 65536, 65537} {
+			sweepPayloads = append(sweepPayloads, Msg(strings.Repeat("k", n)), MsgBin(wtPayload(n, true)))
+		}
+		n := 0
+		for _, car := range []outCarrier{{"webtransport", 4, false}, {"websocket", 4, false}, {"websocket", 3, true}} {
+			for pi := base; pi < len(sweepPayloads); pi++ {
+				for _, opt := range []string{"nil", "pre"} {
+					cfg := sweepCfg{car: car, httpComp: 1024, deflate: -1, sends: []sendSpec{{1, "nil"}, {pi, opt}, {1, "nil"}}}
+					n++
+					c.Once(cfg.id(), sweepBody(cfg, "C01"))
+				}
+			}
+		}
+		c.Res.Distinct = int64(n)
+		c.Note("[small, boundary, small] batches with the middle payload of 123..127 and 65533..65537 bytes (text and binary, normal and pre-encoded) on webtransport and websocket")
 	})
 	// JSONP index and payload characters (C16)
 	register("C16", "jsonp-index", false, func(c *Ctx) {
